@@ -629,3 +629,29 @@ def r0510(model, rep, ck):
     body_screw_freshness(model, rep, 'R05.14')
     rep.rules['R05.14'] = ('body screw list re-derived from the CURRENT home pose and space screws after the last write of either, on every path of every public '
                            'method (jacobianBody() and the body-frame statics describe the tool the arm reports)')
+    # ---------------------------------------------------------------- R05.15
+    # restoreOriginalEE puts the ORIGINAL tool back whatever the current tool is: no path leaves the home pose as it is unless the two
+    # poses are known to be equal as a whole (a position-only or tolerance test is not such knowledge: a re-oriented tool has the same origin)
+    from ..engine.paths import paths_of as _paths515
+    rep.rule('R05.15', 'restoreOriginalEE stores the original home tool pose on every path (a path that skips it is taken only when the two poses are equal as '
+                       'whole transforms)')
+    arm15 = model.cls(ARM, 'Arm')
+    if 'restoreOriginalEE' not in arm15.methods:
+        raise AnalysisError('anchor vanished: Arm.restoreOriginalEE')
+    ro = flat_method(arm15, 'restoreOriginalEE')
+    n15 = 0
+    for pth in _paths515(ro.node, ro.params):
+        if pth.kind not in ('return', 'fall'):
+            continue
+        n15 += 1
+        st15 = [e for e in pth.events if e[0] == 'store' and e[1] == 'self._end_effector_home' and len(e) > 3]
+        restored = any(norm_text(e[3]) in ('self._original_end_effector_home', 'self._original_end_effector_home.copy()', 'tm(self._original_end_effector_home)') for e in st15)
+        whole_eq = any(v_ and k_.replace(' ', '') in ('self._end_effector_home==self._original_end_effector_home', 'self._original_end_effector_home==self._end_effector_home',
+                                                        'self._end_effector_homeisself._original_end_effector_home', 'self._original_end_effector_homeisself._end_effector_home')
+                       for k_, v_ in pth.facts.items())
+        conds = ['%s is %s' % (pth.fact_src.get(k_, k_)[:70], v_) for k_, v_ in sorted(pth.facts.items())][:2]
+        rep.ob('R05.15', ro, 'original tool restored on the path ending at line %s' % (pth.ret_line or 'end'), restored or whole_eq,
+               'a path through restoreOriginalEE (taken when %s) returns without storing the original home pose: a tool that was changed in a way this test does not see '
+               '(re-oriented about its own origin) stays in place - FK, getEEPos and the body Jacobian keep describing the custom tool after the restore'
+               % (' and '.join(conds) or 'no condition'), line=pth.ret_line)
+    rep.floor('R05.15', 'paths of restoreOriginalEE', n15, 1)
